@@ -166,12 +166,13 @@ def make_cases(rng, src_path, n, outdir, tag, structural=False):
 
 
 def _batch(args):
-    files, mode = args
+    files, mode = args[0], args[1]
+    base = str(args[2]) if len(args) > 2 else '20'
     env = dict(os.environ)
     env['PYTHONPATH'] = common.REPO
     total_mb = sum(os.path.getsize(f) for f in files) / 1e6
     try:
-        p = subprocess.run([common.PY, RUNNER, str(MEM), mode, '20', '60'] + files, cwd=common.REPO, env=env,
+        p = subprocess.run([common.PY, RUNNER, str(MEM), mode, base, '60'] + files, cwd=common.REPO, env=env,
                            stdout=subprocess.PIPE, stderr=subprocess.PIPE, text=True, timeout=8 * (120 + 30 * len(files) + 90 * total_mb))
         out = [json.loads(l) for l in p.stdout.split('\n') if l.strip().startswith('{')]
         died = None if len(out) == len(files) else 'worker died with exit code %s after %d of %d files: %s' % (p.returncode, len(out), len(files), p.stderr[-300:])
@@ -363,7 +364,11 @@ def part_bombs(chk, n_versions):
                     if p:
                         files.append(p)
                         meta[os.path.basename(p)] = (v, meth, bname, len(bombs[bname]))
-        jobs = [(files[i:i + 4], 'lenient') for i in range(0, len(files), 4)]
+        # the known tuple-hash probe alone, with a short limit (it is ended by the kernel); the others four to a process
+        probe = [f for f in files if meta[os.path.basename(f)][2] == 'tuple-key']
+        rest = [f for f in files if f not in probe]
+        jobs = [(probe, 'lenient', 4)] if probe else []
+        jobs += [(rest[i:i + 6], 'lenient') for i in range(0, len(rest), 6)]
         for files_, mode, out, died in common.pmap(_batch, jobs):
             done = {r['file'] for r in out}
             if died:
@@ -502,7 +507,8 @@ def _stream_worker(cfg):
         for hi in range(cfg['n_hist']):
             dialect = cfg['dialects'][hi % len(cfg['dialects'])]
             rng = random.Random('%s-%d' % (cfg['seed_key'], hi))
-            h = history.generate(rng, st.views, dialect, 40)
+            heavy = any(p[1] >= 60000 and p[0] == 'huge' for v in st.views for p in v['clientProps'])
+            h = history.generate(rng, st.views, dialect, 10 if heavy else 40)
             stream = history.stream_of(h.packets)
             for k in range(cfg['variants']):
                 bad, kind, pos = corrupt(rng, stream, packets=True)
@@ -553,7 +559,7 @@ def run(chk, drv):
                        'parse under RLIMIT_AS 3 GiB and a CPU-time limit of 20 s + 60 s/MB (wall clock 8x); battles with extreme field values; crafted pickle graphs; adaptive runs of adversarial slice packets (growth bound); corrupted streams of generated histories through model and '
                        'implementation; NoZeroWidth on every bundled set. Non-trivial: all; distinct by (file, mode).')
     part_zero_width(chk)
-    part_campaign(chk, 24 if quick else 1500, 4 if quick else 10)
+    part_campaign(chk, 16 if quick else 1500, 4 if quick else 10)
     part_extreme(chk, 16 if quick else 1000)
     part_bombs(chk, 100 if quick else 1000)
     part_adaptive(chk, 16 if quick else 200, 40)
